@@ -320,6 +320,42 @@ func main() {
 	for _, a := range anchors {
 		byArea[a.Area] = append(byArea[a.Area], a)
 		f := parse(repo, a.File)
+		if a.Func == "*" {
+			// "rest of the file": every top-level declaration that is not anchored on its own in this area —
+			// functions as skeletons, var / const / type declarations verbatim (comments and imports excluded)
+			if f == nil {
+				out.Funcs[a.ID] = FuncOut{Hash: "0", Missing: true}
+				out.Errors = append(out.Errors, "missing file "+a.File)
+				continue
+			}
+			own := map[string]bool{}
+			for _, b := range anchors {
+				if b.Area == a.Area && b.File == a.File && b.Func != "*" {
+					own[b.Recv+"."+b.Func] = true
+				}
+			}
+			var sk []string
+			for _, d := range f.Decls {
+				switch x := d.(type) {
+				case *ast.FuncDecl:
+					if own[recvName(x)+"."+x.Name.Name] {
+						continue
+					}
+					sk = append(sk, "func "+recvName(x)+"."+x.Name.Name)
+					sk = append(sk, "sig "+src(x.Type))
+					if x.Body != nil {
+						skeleton(&sk, 1, x.Body.List)
+					}
+				case *ast.GenDecl:
+					if x.Tok == token.IMPORT {
+						continue
+					}
+					sk = append(sk, "decl "+src(x))
+				}
+			}
+			out.Funcs[a.ID] = FuncOut{Hash: hashOf(sk), Skeleton: sk}
+			continue
+		}
 		fd := findFunc(f, a.Recv, a.Func)
 		if fd == nil || fd.Body == nil {
 			out.Funcs[a.ID] = FuncOut{Hash: "0", Missing: true}
